@@ -190,7 +190,7 @@ CHECKS["C04"]["groups"][-1]["scenarios"].append(m("slow_start", "traffic arrivin
 CHECKS["C16"]["groups"][-1]["scenarios"].append(m("blocking", "the C17 scenario (blocking_tell / blocking_ask with and without timeout from a plain thread: live / slow / full mailbox / never-answering / killed actor) with each call routed through Box<dyn TellHandler> / Box<dyn AskHandler> obtained by From, clone_boxed or downgrade+upgrade", "same results, timers, deadlines and dead letters as the direct calls"))
 for _pid in ("C01", "C02", "C03", "C13"):
     CHECKS[_pid]["groups"][-1]["scenarios"].append(m("abandoned", "callers that give up: ask_with_timeout (symbolic timeout <= 4 ns, one symbolic clock advance) expiring after the mailbox accepted the message; ask / tell futures dropped at EVERY possible moment (cancellation is a scheduler choice); later traffic queued behind; capacity 1-3, slow handler", "an abandoned request is still handled exactly once and in its place; a withdrawn send is never handled; nothing hangs; no dead letter without a returned error"))
-for _pid in ("C01", "C02", "C06", "C07", "C08", "C09"):
+for _pid in ("C01", "C02", "C04", "C06", "C07", "C08", "C09"):
     CHECKS[_pid]["groups"][-1]["scenarios"].append(m("burst", "one sender, 12 (thorough 20) back-to-back tells + a final ask into a mailbox that holds them all; on_run periodic or one-shot; optionally a kill / stop() from a second task", "threshold-dependent behaviour (batching, burst limits) under the same monitors"))
 CHECKS["C12"]["groups"].append({"engine": "mir", "features": ["deadlock-detection"], "attribute_all": True, "scenarios": [
     m("failing_alone", "the same crash points with the deadlock-detection feature compiled in", "a panic (also the deliberate deadlock panic) leaves the wait-for graph and its lock usable by the survivors"),
@@ -240,6 +240,11 @@ _FP = {
 }
 _KTRUST = ["Kani 0.68 / CBMC 6.11 / cadical", "Rust tokio model (/verif/models/tokio)", "dead_letter::record replaced by a logging stub with the same signature (kani::stub)"]
 CHECKS["C19"]["groups"][0]["scenarios"].append(m("abandoned", "asks whose caller gives up (timeout / dropped future) and tells withdrawn while waiting for a slot", "on_tell_result exactly once per completed tell handler and never for an ask, also when nobody collects the ask's reply"))
+# limits shared by all E-MIR checks, stated where a seeded change showed them (DESIGN.md section 9)
+for _pid, _txt in (("C14", "two OS threads racing INSIDE one poll of ask() (e.g. a cycle check and the edge insert under separately taken locks): a poll is atomic in the interleaving semantics"),
+                   ("C20", "readers on other OS threads holding a metrics lock during the actor's poll (lock contention inside one poll is not modelled)"),
+                   ("C17", "tokio's worker scheduling (a blocked multi-thread worker never polls the task it just spawned into its own LIFO slot)")):
+    CHECKS[_pid]["outside"] = (CHECKS[_pid].get("outside", "") + "; " + _txt).lstrip("; ")
 CHECKS["C13"]["groups"].insert(0, {"engine": "kani", "features": [], "timeout": 400, "harnesses": [_FP["tell"], _FP["ask"], _FP["tellt"]]})
 CHECKS["C10"]["groups"].insert(0, {"engine": "kani", "features": [], "timeout": 400, "harnesses": [_FP["retry"], _FP["tellt"]]})
 CHECKS["C01"]["groups"].insert(0, {"engine": "kani", "features": [], "timeout": 400, "harnesses": [_FP["tell"], _FP["stop"]]})
